@@ -415,6 +415,25 @@ theorem second_call_continues (b as : List (Coef K)) (a0 zero1 zero2 : K) (mem1 
       = tvspec b as (Coef.const a0) zero2 xs1.length mem2 [] xs2 :=
   evalTV_continue b as a0 zero1 zero2 mem1 mem2 xs1 xs2 hmem2 hnz hfull
 
+/-- **C06.10a'** (`second_call_continues_object`): the same on the filter OBJECT.  A normalised
+causal filter object with a constant gain, not all-zero, is called; the output — ended by its input
+— is consumed; the object, which now holds every coefficient Stream where the generated loop left
+it (`callTwice`: `advance`), is called again with its own memory, zero value and input: causality
+test, gain test, `values()`, memory normalisation, generated source, a new generator on the same
+iterators — the result is the difference equation with the coefficient index going on at `|xs1|`. -/
+theorem second_call_continues_object (num den : Terms (Coef K)) (mem1 mem2 : Mem K) (zero1 zero2 : K)
+    (xs1 xs2 : List K) (g : K)
+    (hnum : List.Pairwise (fun x y : Int × Coef K => x.1 < y.1) num)
+    (hden : List.Pairwise (fun x y : Int × Coef K => x.1 < y.1) den)
+    (hstored : ∀ kv ∈ num ++ den, kv.2 ≠ Coef.const 0) (hc : ∀ kv ∈ num ++ den, 0 ≤ kv.1)
+    (h0 : coefAt den 0 = Coef.const g) (hg : g ≠ 0)
+    (hnz : ¬ ((∀ c ∈ dense num, c = Coef.const 0) ∧ (∀ c ∈ (dense den).tail, c = Coef.const 0)))
+    (hfull : ∃ ys its, callTV num den mem1 zero1 xs1 = .ok (ys, its) ∧ ys.length = xs1.length) :
+    (callTwice num den mem1 zero1 xs1 mem2 zero2 xs2).2.map Prod.fst
+      = .ok (tvspec (dense num) (dense den).tail (Coef.const g) zero2 xs1.length
+              (memoryOf zero2 (dense den).tail.length mem2) [] xs2) :=
+  callTwice_const num den mem1 mem2 zero1 zero2 xs1 xs2 g hnum hden hstored hc h0 hg hnz hfull
+
 /-- … which is the equation on the streams as the first call left them -/
 theorem continued_eq_dropped (b as : List (Coef K)) (a0 : Coef K) (zero : K) (k : Nat)
     (mem xs : List K) :
@@ -626,6 +645,11 @@ example : tvspec [Coef.const (1 : Rat), Coef.strm [1, 2, 3, 4, 5, 6, 7, 8]]
 example := second_call_continues [Coef.const (1 : ℚ), Coef.strm [1, 2, 3, 4, 5, 6, 7, 8]]
   [Coef.strm [1, 1/2, 1/3, 1/4, 1/5, 1/6, 1/7, 1/8]] 2 0 0 [0] [0] [1, 1, 1] [1, 1, 1] rfl (by simp)
   (by rw [ends_with_shortest _ _ _ _ _ _ rfl]; decide)
+example := second_call_continues_object [((0 : Int), Coef.const (1 : ℚ)), (1, Coef.strm [1, 2, 3, 4, 5, 6, 7, 8])]
+  [(0, Coef.const 2), (1, Coef.strm [1, 1/2, 1/3, 1/4, 1/5, 1/6, 1/7, 1/8])] Mem.none Mem.none 0 0
+  [1, 1, 1] [1, 1, 1] 2 (by simp) (by simp) (by simp) (by simp) (by simp [coefAt]) (by norm_num)
+  (by intro h; have := h.1 (Coef.const 1) (by simp [dense, order, coefAt]; exact ⟨0, by omega, by simp⟩); simp at this)
+  ⟨[1/2, 11/8, 85/48], ⟨[[], [4, 5, 6, 7, 8]], [[1/4, 1/5, 1/6, 1/7, 1/8]]⟩, by decide +kernel, rfl⟩
 /-- C06.10b: `(1 + z^-1) / (Stream(2,3,4,5,6,7,8,9) + Stream(1,…) z^-1)` called twice: the first call
 gives 1/2, 1/2, 3/8, the second raises ZeroDivisionError (observed on the real code) -/
 example : ((callTwice [((0 : Int), Coef.const (1 : Rat)), (1, Coef.const 1)]
